@@ -7,6 +7,8 @@ import (
 	"math/rand"
 	"os"
 	"unicode/utf8"
+
+	"github.com/tyler-sommer/stick/twig/escape"
 )
 
 // c13: inputs for the escapers. Deterministic enumeration (code points, invalid bytes,
@@ -61,6 +63,33 @@ func init() {
 		for _, a := range c13Boundary {
 			for _, b := range c13Boundary {
 				emit("pair", append(rs(a), rs(b)...))
+			}
+		}
+		// text that is already escaped (the output of each escaper for each boundary character, its proper prefixes, and
+		// two outputs side by side): escaping is per character, so escaped text is escaped again, entity by entity
+		escapers := []func(string) string{escape.HTML, escape.HTMLAttribute, escape.JS, escape.CSS, escape.URLQueryParam}
+		seen := map[string]bool{}
+		re := func(x string) {
+			if x != "" && !seen[x] {
+				seen[x] = true
+				emit("re", []byte(x))
+			}
+		}
+		for _, e := range escapers {
+			for _, a := range c13Boundary {
+				o := e(string(a))
+				if o == string(a) {
+					continue
+				}
+				re(o)
+				re(o + "x")
+				re("x" + o)
+				for k := 2; k < len(o); k++ {
+					re(o[:k])
+				}
+				for _, b := range []rune{'<', '&', '"', '\'', '\\', '%', ' ', 0x80} {
+					re(o + e(string(b)))
+				}
 			}
 		}
 		// random strings biased to the boundary alphabet
